@@ -2,9 +2,11 @@ package main
 
 import (
 	"bufio"
+	"context"
 	"fmt"
 	"io"
 	"os"
+	"os/exec"
 	"sync/atomic"
 	"time"
 
@@ -357,10 +359,25 @@ func typedInputs(rg *rng, level int) []robustInput {
 	return ins
 }
 
+var deepSkipDone bool
+
 func runRobust(sc *streamScenario, rec *recorder, level int) {
 	bs := buildStream(sc.Units, sc.Pkts, sc.PMTPIDs, sc.Seed, sc.Complete)
 	rg := newRng(sc.Seed ^ 0x3030)
 	rec.ev(M{"ev": "reset", "t": sc.SID, "kind": "robust", "npkts": len(bs.pkts)})
+	if !deepSkipDone {
+		// once per run: 600 000 packets in a row dropped by a PacketSkipper, with a 48 MB stack, in a child process (deepSkipChild, demux.go);
+		// a child that dies is recorded as a panicking call
+		deepSkipDone = true
+		cctx, cancel := context.WithTimeout(context.Background(), 120*time.Second)
+		err := exec.CommandContext(cctx, os.Args[0], "deepskip").Run()
+		cancel()
+		res := []int{2, 2, 2}
+		if err != nil {
+			res = []int{3}
+		}
+		rec.ev(M{"ev": "case", "input": "deepskip-600000-skipped-packets", "len": 0, "psize": 188, "reader": "generated", "api": "packet", "res": res, "cons": []int{0, 0, 0}[:len(res)]})
+	}
 	var all []robustCfg
 	for _, ps := range []int{-1, 188, 192, 204, 189, 257, 1024} {
 		for _, rd := range []string{"bytes", "bufio", "plain", "chunk", "bufio16", "bufio190"} {
